@@ -18,7 +18,8 @@ the limb list); `Val f a` says `a` is a well-formed value of format `f` (`n` lim
   unrolled, `eval_multiply_n_by_n_to_2n`, `eval_multiply_kara_n_by_n_to_2n`, `eval_multiply_1d`, `eval_divide_by_single_limb`, `shl`, `shr`, `negate`, `compare_ranges`,
   bitwise, `eval_divide_knuth`) compute the exact arithmetic they stand for, with carries.
 * Part 2: hence each operator, read as a value, equals `wrapTwos N` of the exact result, for signed and
-  unsigned formats; the right-hand sides do not mention `w`.
+  unsigned formats; the right-hand sides do not mention `w`.  Shift counts of any built-in type (`shl_wraps`, `shr_floor`)
+  and counts given as a `cnl::constant<K>` / `K_c` literal of any value type, `K ≥ 256` included (`shift_by_constant`).
 * Part 3: the corollary that results do not depend on how a value is split into limbs.
 * Part 4: conversions from/to built-in integers, `numeric_limits`, decimal text, the storage rule.
 * Part 4b: a built-in integer (any type of 8…128 bits, any value, the most negative ones included) on either side of a
@@ -251,6 +252,22 @@ theorem shr_floor {f : Wide.Fmt} {a : Limbs} {k : Int} {sgn : Bool} (hw : 1 ≤ 
     toInt f (shrOp f a k sgn) = toInt f a / 2^k.toNat
     ∧ toInt f (shrOp f a k sgn) = wrapTwos f.N f.signed (toInt f a / 2^k.toNat) :=
   ⟨(ShiftOp.shrOp_toInt hw hn ha hk0 hkN).1, ShiftOp.shrOp_toInt_wrap hw hn ha hk0 hkN⟩
+
+/-- the count given as a `cnl::constant<K>` (the `K_c` literals; `<<=` / `>>=` with a constant): for every `0 ≤ K < N` —
+also `K ≥ 256` — and every value type of the constant, `<<` is multiplication by `2^K` reduced to `N` bits and `>>` the floor
+of the division by `2^K` (arithmetic for negative values) -/
+theorem shift_by_constant {f : Wide.Fmt} {a : Limbs} {K : Int} {sgn : Bool} (hw : 1 ≤ f.w) (hn : 1 ≤ f.n) (ha : Val f a)
+    (hk0 : 0 ≤ K) (hkN : K < f.N) :
+    toInt f (shlConst f a K sgn) = wrapTwos f.N f.signed (toInt f a * 2^K.toNat)
+    ∧ toInt f (shrConst f a K sgn) = toInt f a / 2^K.toNat
+    ∧ toInt f (shrConst f a K sgn) = wrapTwos f.N f.signed (toInt f a / 2^K.toNat) :=
+  ⟨shl_wraps hw hn ha hk0 hkN, (shr_floor hw hn ha hk0 hkN).1, (shr_floor hw hn ha hk0 hkN).2⟩
+
+-- a 320-bit signed value over 8-bit limbs shifted by `constant<300>`: 3·2^300 and −2^319 / 2^300 = −2^19
+set_option exponentiation.threshold 400 in
+example : toInt ⟨8, 40, true⟩ (shlConst ⟨8, 40, true⟩ (3 :: List.replicate 39 0) 300 true) = 3 * 2^300 := by decide
+set_option exponentiation.threshold 400 in
+example : toInt ⟨8, 40, true⟩ (shrConst ⟨8, 40, true⟩ (List.replicate 39 0 ++ [128]) 300 true) = -2^19 := by decide
 
 /-- all binary operators of `wide_integer op wide_integer` at once, against the spec's `specBin` -/
 theorem binOp_spec {f : Wide.Fmt} {a b : Limbs} (op : BinOp) (hop : op ≠ .shl ∧ op ≠ .shr) (hw : 1 ≤ f.w) (hn : 1 ≤ f.n)
